@@ -194,10 +194,12 @@ class Hist(object):
             fields = (oid, price, qty, side if side is not None else enum_const(0))
         upd = enum_const(k, fields)
         pre = self.resting()
+        before = self.level_value()
         r, self.st, l = self.ex.call('PriceLevel::update_order', [self.lref, upd], self.st, self._pc())
         self._did(l)
         rec = {'op': 'update', 'kind': kind, 'id': oid, 'price': price, 'qty': qty, 'side': side, 'ret': r,
-               'pre': pre, 'post': self.resting(), 'agg': self.aggregates()}
+               'pre': pre, 'post': self.resting(), 'before': before, 'after': self.level_value(),
+               'agg': self.aggregates()}
         self.steps.append(rec)
         return rec
 
